@@ -452,6 +452,29 @@ class Ctx(object):
                 tb.append(item)
         used = sorted({a for ax in axioms.values() for a in ax})
         tb.append('axioms reported by Print Assumptions in this run: ' + (', '.join(used) if used else 'none (Closed under the global context)'))
+        if self.thorough() and good and os.environ.get('VERIF_NO_COQCHK') != '1':
+            # independent re-check of the compiled files and everything they depend on
+            mod = 'Supp.' + rel[:-2].replace('/', '.')
+            try:
+                rc2, out2 = sh(['timeout', '1500', 'coqchk', '-silent', '-o', '-Q', '.', 'Supp', mod], cwd=COQ, timeout=1530)
+            except subprocess.TimeoutExpired:
+                rc2, out2 = 124, 'timeout'
+            summ = out2[out2.find('CONTEXT SUMMARY'):] if 'CONTEXT SUMMARY' in out2 else out2[-800:]
+            cov['coqchk'] = {'rc': rc2, 'summary': summ[:1500]}
+            tb.append('coqchk -o (independent checker) on %s: rc=%d' % (mod, rc2))
+            if rc2 != 0:
+                good = False
+                cov['discharged'] = 0
+                self.notes.append('coqchk failed on ' + mod)
+            else:
+                m = re.search(r'\* Axioms:(.*?)\n\s*\n\* ', summ, re.S)
+                ax = [a.strip() for a in (m.group(1).split('\n') if m else []) if a.strip() and a.strip() != '<none>']
+                cov['coqchk']['axioms'] = ax
+                for a in ax:
+                    if a.split('.')[-1] not in ALLOWED_AXIOMS and a not in ALLOWED_AXIOMS:
+                        good = False
+                        cov['discharged'] = 0
+                        self.notes.append('coqchk reports disallowed axiom ' + a)
         self.proof_ok = good
         return good
 
